@@ -64,7 +64,10 @@ func GetSession(sid string) (*Session, bool) {
 	// Extend session expiration if close to expiring
 	if time.Until(sess.ExpiresAt) <= extendThreshold {
 		slog.Debug("Session close to expiring, extending expiration", "session_id", sid, "expires_at", sess.ExpiresAt)
-		sess.ExpiresAt = time.Now().Add(defaultLifetime)
+		// Other requests may be reading this session: store an extended copy instead of modifying it in place
+		extended := *sess
+		extended.ExpiresAt = time.Now().Add(defaultLifetime)
+		sess = &extended
 		sessionStore.Set(sid, sess)
 	}
 
